@@ -33,6 +33,11 @@ else:
 REGISTRY = {}
 
 
+def ver(fn):
+    """version of a memento function, asked for while its module is still being imported; None for a plain function"""
+    return fn.version() if hasattr(fn, "version") and hasattr(fn, "fn_reference") else None
+
+
 def fl(fn):
     """force_local() clone of a memento function; the identity for anything else (reference execution)"""
     return fn.force_local() if hasattr(fn, "force_local") else fn
